@@ -91,6 +91,19 @@ pub fn exec(rest: &str, out: &mut Out) -> (String, bool) {
         "deep" if a.len() == 4 => {
             let (kind, depth, closed) = (a[1], a[2].parse::<usize>().unwrap_or(0), a[3] == "1");
             let exe = std::env::current_exe().unwrap();
+            // the same child built WITHOUT optimisation (target/debug/jsv, built by `check` for C03): the
+            // stack a user's debug build consumes — an optimiser may turn a self-recursive call into
+            // a loop and hide a depth that grows with the input
+            if let Some(dbg) = exe.parent().and_then(|p| p.parent()).map(|p| p.join("debug").join("jsv")) {
+                if dbg.exists() {
+                    let od = std::process::Command::new(&dbg).args(["deepchild", kind, &depth.to_string(), if closed { "1" } else { "0" }]).output();
+                    match od {
+                        Ok(od) if od.status.success() => { out.count("deep_debug_build_ok"); }
+                        Ok(od) => out.oracle(false, "deep / long documents parse inside a fixed 256 KiB stack in an unoptimised build too (no overflow, no abort)", || format!("debug-build child exited with {:?}", od.status)),
+                        Err(_) => {}
+                    }
+                }
+            }
             let o = std::process::Command::new(exe).args(["deepchild", kind, &depth.to_string(), if closed { "1" } else { "0" }]).output();
             match o {
                 Ok(o) if o.status.success() => {
